@@ -191,7 +191,7 @@ META = {
     "ready": True,
     "category": "proof",
     "technique": "Rocq inductive invariants over a hand-written executable small-step model + scenario conformance on real actors + per-stop-path event oracle",
-    "text": "Eleven theorems over a small-step model of one actor's lifecycle (init, Tell split at its check/enqueue point, turns, PoisonPill on the turn, Shutdown from any other goroutine, tryPassivation, re-initialisation; any number of senders and stoppers, any interleaving): PostStop at most once per incarnation on every path (for tryPassivation re-checking the running bit, fix c7ca1aa; witness of the double PostStop for the previous code), PreStart before the first Receive for a spawn and 'never before PreStart began' for every incarnation, all four clauses when off-turn stops do not overlap a turn (C06_partial), clauses 2-4 with no assumption on the PoisonPill path; refutation witnesses for overlap (off-turn Shutdown, passivation), Receive after PostStop began, Receive during a restart's PreStart. Every run: generated driver sequences on a real actor compared with the Coq model after every action (vm_compute), every stop path x {idle, inside Receive} and the special schedules on real actor systems with the four-clause oracle on recorded events.",
+    "text": "Eleven theorems over a small-step model of one actor's lifecycle (init, Tell split at its check/enqueue point, turns, PoisonPill on the turn, Shutdown from any other goroutine, tryPassivation, re-initialisation; any number of senders and stoppers, any interleaving): PostStop at most once per incarnation on every path (for tryPassivation re-checking the running bit, fix c7ca1aa; witness of the double PostStop for the previous code), PreStart before the first Receive for a spawn and 'never before PreStart began' for every incarnation, all four clauses when off-turn stops do not overlap a turn (C06_partial), clauses 2-4 with no assumption on the PoisonPill path; refutation witnesses for overlap (off-turn Shutdown, passivation), Receive after PostStop began, Receive during a restart's PreStart. Every run: generated driver sequences on a real actor compared with the Coq model after every action (vm_compute), every stop path x {idle, inside Receive} and the special schedules on real actor systems with the four-clause oracle on recorded events. Also every run: a piped task result (PipeTo self / PipeToName) made to complete at chosen lifecycle points of its receiver (inside the second PreStart of a supervisor-driven restart while the receiver is suspended, inside the second PreStart of PID.Restart, inside PostStop, after the stop), checked by the clause oracle.",
     "design_ref": "DESIGN.md 7/C06",
     "level_note": "Trusted: Coq kernel, the hand-written model (tied each run), one worker per actor at a time (C01) as an assumption, Go runtime for un-gated parts. The off-turn overlap is a design-level behaviour listed in known_findings per stop path.",
 }
